@@ -201,13 +201,45 @@ pub fn normalise_path(p: &str) -> String {
     p.to_string()
 }
 
+/// First backtrace frame that lies in /repo/src, as `src/...:line`.
+#[cfg(not(miri))]
+fn repo_frame_from_backtrace() -> Option<String> {
+    let bt = std::backtrace::Backtrace::force_capture().to_string();
+    for line in bt.lines() {
+        let l = line.trim_start();
+        if let Some(rest) = l.strip_prefix("at /repo/") {
+            // rest = src/protocol/parser.rs:204:24
+            let mut it = rest.rsplitn(2, ':');
+            let _col = it.next();
+            if let Some(file_line) = it.next() {
+                return Some(file_line.to_string());
+            }
+        }
+    }
+    None
+}
+
+#[cfg(miri)]
+fn repo_frame_from_backtrace() -> Option<String> {
+    None
+}
+
 /// Install a silent panic hook that records message and location per thread.
 pub fn install_panic_hook() {
     std::panic::set_hook(Box::new(|info| {
-        let loc = match info.location() {
+        let mut loc = match info.location() {
             Some(l) => format!("{}:{}", normalise_path(l.file()), l.line()),
             None => "unknown".to_string(),
         };
+        let mut via = String::new();
+        if !loc.starts_with("src/") {
+            // Panic raised inside std (e.g. "capacity overflow"): name the
+            // innermost frame of the crate under test instead.
+            if let Some(inner) = repo_frame_from_backtrace() {
+                via = format!(" (raised in {})", loc);
+                loc = inner;
+            }
+        }
         let msg = if let Some(s) = info.payload().downcast_ref::<&str>() {
             (*s).to_string()
         } else if let Some(s) = info.payload().downcast_ref::<String>() {
@@ -217,7 +249,7 @@ pub fn install_panic_hook() {
         };
         LAST_PANIC.with(|c| {
             if let Ok(mut g) = c.try_borrow_mut() {
-                *g = Some(PanicInfo { msg, loc });
+                *g = Some(PanicInfo { msg: format!("{}{}", msg, via), loc });
             }
         });
     }));
